@@ -8,6 +8,13 @@ def dispatch (op : String) (args : List Sexp) : String :=
   | "codec.dec" => opCodecDec args
   | "sock.recv" => opSockRecv args
   | "seq.hash" => opSeqHash args
+  | "path.epath" => opPathEpath args
+  | "path.seg" => opPathSeg args
+  | "path.req" => opPathReq args
+  | "path.tag" => opPathTag args
+  | "path.parsepadded" => opPathParse args
+  | "path.conn" => opPathConn args
+  | "path.route" => opPathRoute args
   | "enum.getitem" => opEnum "getitem" args
   | "enum.get" => opEnum "get" args
   | "enum.contains" => opEnum "contains" args
